@@ -61,7 +61,15 @@ Inductive cop :=
 | CTruncate (n : nat) | CClear | CLen
 | CObjInsert (k : list N) (x : tree) | CObjRemove (k : list N) | CObjGet (k : list N) | CContains (k : list N)
 | CEntryOrInsert (k : list N) (x : tree) | CIndexOrInsert (k : list N) (x : tree)
-| CSet (x : tree) | CTake.
+| CSet (x : tree) | CTake
+(* second round: the rest of the public mutation API *)
+| CArrAppend (xs : list tree) | CObjAppend (ms : list (list N * tree)) | CRetainNonNull
+| CSplitOff (n : nat) | CResize (n : nat) (x : tree) | CExtendWithin (a b : nat) | CDrain (a b : nat) | CSwap (i j : nat)
+| CRemoveEntry (k : list N) | CEntryAndModify (k : list N) (x y : tree) | CEntryOrDefault (k : list N)
+| CEntryRemove (k : list N) | CEntryInsert (k : list N) (x : tree) | CFillNulls (x : tree).
+
+Definition non_null (t : tree) : bool := match t with Leaf d => negb (keq d [110%N]) | _ => true end.
+Definition fill (x : tree) (t : tree) : tree := if non_null t then t else x.
 
 Definition last_opt {A} (l : list A) : option A := nth_error l (length l - 1).
 
@@ -91,6 +99,27 @@ Definition apply_cop (c : cop) (t : tree) : option (tree * res) :=
   | CIndexOrInsert k x, Leaf d => if keq d [110%N] then Some (Obj [(k, x)], RUnit) else None
   | CSet x, _ => Some (x, RUnit)
   | CTake, _ => Some (tnull, RTree t)
+  | CArrAppend xs, Arr l => Some (Arr (l ++ xs), RUnit)
+  | CObjAppend ms, Obj l => Some (Obj (fold_left (fun acc kv => assoc_set acc (fst kv) (snd kv)) ms l), RUnit)
+  | CRetainNonNull, Arr l => Some (Arr (filter non_null l), RUnit)
+  | CRetainNonNull, Obj l => Some (Obj (filter (fun kv => non_null (snd kv)) l), RUnit)
+  | CSplitOff n, Arr l => if n <=? length l then Some (Arr (firstn n l), RTree (Arr (skipn n l))) else None
+  | CResize n x, Arr l => Some (Arr (firstn n l ++ repeat x (n - length l)), RUnit)
+  | CExtendWithin a b, Arr l => if (a <=? b) && (b <=? length l) then Some (Arr (l ++ firstn (b - a) (skipn a l)), RUnit) else None
+  | CDrain a b, Arr l => if (a <=? b) && (b <=? length l) then Some (Arr (firstn a l ++ skipn b l), RTree (Arr (firstn (b - a) (skipn a l)))) else None
+  | CSwap i j, Arr l => match nth_error l i, nth_error l j with
+                        | Some xi, Some xj => Some (Arr (set_nth (set_nth l i xj) j xi), RUnit)
+                        | _, _ => None end
+  | CRemoveEntry k, Obj l => Some (Obj (assoc_del l k), match assoc l k with Some old => RTree old | None => RNone end)
+  | CEntryAndModify k x y, Obj l =>
+      match assoc l k with Some _ => Some (Obj (assoc_set l k x), RTree x) | None => Some (Obj (assoc_set l k y), RTree y) end
+  | CEntryOrDefault k, Obj l =>
+      match assoc l k with Some v => Some (t, RTree v) | None => Some (Obj (assoc_set l k tnull), RTree tnull) end
+  | CEntryRemove k, Obj l =>
+      match assoc l k with Some old => Some (Obj (assoc_del l k), RTree old) | None => Some (t, RNone) end
+  | CEntryInsert k x, Obj l => Some (Obj (assoc_set l k x), match assoc l k with Some old => RTree old | None => RNone end)
+  | CFillNulls x, Arr l => Some (Arr (map (fill x) l), RUnit)
+  | CFillNulls x, Obj l => Some (Obj (map (fun kv => (fst kv, fill x (snd kv))) l), RUnit)
   | _, _ => None
   end.
 
